@@ -124,6 +124,8 @@ class Histories(Suite):
         if not cancelled_possible:
             if fm is None and o["outcome"] != "timeout":
                 return ("no-timeout", f"outcome {o['outcome']} without any matching response", {"outcome": "timeout"})
+            if fm is None and o["t"] != case["D"]:
+                return ("timeout-not-at-deadline", f"no matching response at all, yet the call failed at tick {o['t']} instead of its timeout {case['D']}", {"t": case["D"]})
             if fm is not None and fm[1] < case["D"]:
                 _, a, ev = fm
                 if ev["k"] == "resp" and not (o["outcome"] == "returned" and o.get("p") == ev["p"]):
